@@ -7,7 +7,7 @@ if ! git apply "$patch" 2>/tmp/apply_wt.err; then echo "PATCH DOES NOT APPLY: $(
 mkdir -p /tmp/try_verif_wt; cp /verif/KNOWN_FINDINGS.txt /tmp/try_verif_wt/
 props="$@"; [ -z "$props" ] && props="C01 C02 C03 C04 C05 C06 C07 C08 C09 C10 C11 C12 C13 C14 C15 C16 C17 C18"
 for p in $props; do
-  out=$(/verif/bin/otelcheck -property $p -tier quick -repo /tmp/wt/main -verif /tmp/try_verif_wt 2>&1); rc=$?
+  out=$(${OTELCHECK:-/verif/bin/otelcheck} -property $p -tier quick -repo /tmp/wt/main -verif /tmp/try_verif_wt 2>&1); rc=$?
   if [ $rc -ne 0 ]; then echo "== $p exit=$rc"; echo "$out" | grep -v "^VIOLATION\|^  key\|KNOWN-FINDING" | cut -c1-${WIDTH:-330} | head -${LINES_MAX:-8}; fi
 done
 cd /tmp/wt/main; git checkout -q -- . ; git clean -fdq
